@@ -106,7 +106,7 @@ def ref_children(o):
         return out
     if t in BUILTIN_SEQ:
         return [({str(i), i}, v) for i, v in enumerate(tuple(o))]
-    if isinstance(o, BaseException):
+    if issubclass(t, BaseException):   # (isinstance would ask the object for __class__, which may raise)
         try:
             return [({str(i), i}, v) for i, v in enumerate(tuple(o.args))]
         except BaseException:  # noqa
@@ -247,9 +247,9 @@ def check_table(snap_lookup, roots, max_str, probs, strict_children=None, max_co
 def _no_child_kind(o):
     # kinds for which the documentation does not promise children
     import types
-    return isinstance(o, (str, int, float, bool, type(None), bytes, bytearray, types.ModuleType, type,
-                          types.FunctionType, types.BuiltinFunctionType, types.MethodType, types.TracebackType,
-                          types.FrameType, types.CodeType)) or is_iter_like(o)
+    return issubclass(type(o), (str, int, float, bool, type(None), bytes, bytearray, types.ModuleType, type,
+                                types.FunctionType, types.BuiltinFunctionType, types.MethodType, types.TracebackType,
+                                types.FrameType, types.CodeType)) or is_iter_like(o)
 
 
 def check_frames(snapshot, stack, probs, app_rule=None):
